@@ -1,9 +1,12 @@
 (* C06 — compiling terminates with Ok or Err.  Proved: the analysis sizes never exceed
    usize::MAX (the saturating arithmetic cannot overflow), to_str never reaches its panic arm on
    what the analysis hands it, and the parser model runs on fuel linear in the pattern length.
-   Validated (T1 + Regex::new under catch_unwind / address-space limit), not proved: that no
-   panic arm of the parser is reachable and that the linear fuel always suffices. *)
-From FR Require Import Base Utf8 Ast Analyze Parse Escape ExprLemmas SemSound.
+   Proved as well (Proofs/ParseIdx.v): on EVERY pattern that is valid UTF-8 the parser reaches
+   none of its panic arms (every slice / index / unwrap of parse.rs is an explicit Panic outcome of
+   the model): the invariant is that every index between tokens is a character boundary.
+   Validated (T1 + Regex::new under catch_unwind / address-space limit), not proved: that the
+   linear fuel always suffices (termination of the real parser). *)
+From FR Require Import Base Utf8 Utf8Facts Ast Analyze Parse Escape ExprLemmas SemSound ParseInv ParseIdx.
 From Coq Require Import NArith Lia.
 
 Lemma sat_add_bounded a b : (sat_add a b <= usize_max)%N.
@@ -33,6 +36,24 @@ Theorem C06_to_str_total : forall bs e g prec,
   acheck g e = None -> hard bs g e = false -> to_str e prec <> None.
 Proof. intros. eapply to_str_total; eauto. Qed.
 
+
+(* the parser never panics: for every pattern that is valid UTF-8, [parse] returns Ok, a ParseError,
+   NamedBackrefOnly, or (the model's own) out-of-fuel - never the Panic outcome that stands for an
+   out-of-range slice, a failed unwrap or a remove(0) on an empty vector in parse.rs; and the tree
+   it returns has single well-formed characters as literals *)
+Theorem C06_parse_never_panics : forall re, valid_text re -> parse re <> PPanic.
+Proof. exact parse_never_panics. Qed.
+
+Theorem C06_parse_tree_wellformed : forall re e st, valid_text re -> parse re = POk (e, st) -> wfe e.
+Proof. exact parse_wfe. Qed.
+
+(* non-vacuity: a pattern with 2-byte characters, a class, an escape and a named group *)
+Example ex_valid : valid_text [40; 63; 60; 195; 169; 62; 195; 169; 91; 97; 45; 122; 93; 41; 92; 107; 60; 195; 169; 62].
+Proof.
+  exists [[40]; [63]; [60]; [195; 169]; [62]; [195; 169]; [91]; [97]; [45]; [122]; [93]; [41]; [92]; [107]; [60]; [195; 169]; [62]].
+  split; [|reflexivity]. repeat constructor; cbn; auto.
+Qed.
+
 Theorem C06_fuel_is_linear : forall re, parse_fuel re = 12 * (length re + 80).
 Proof. reflexivity. Qed.
 
@@ -47,3 +68,5 @@ Proof. vm_compute. exact I. Qed.
 Print Assumptions C06_sizes_bounded.
 Print Assumptions C06_to_str_total.
 Print Assumptions C06_fuel_is_linear.
+Print Assumptions C06_parse_never_panics.
+Print Assumptions C06_parse_tree_wellformed.
